@@ -75,6 +75,9 @@ type Ctx struct {
 	// clock only moves while every goroutine is blocked, so a timer inside the container fires
 	// exactly when the simulator decides that the parked tasks are that slow.
 	TimeMayPass bool
+	// StockLog: the library's own logger is installed (racesim, programs of odd index): failing
+	// closers report through a prefix logger they share
+	StockLog bool
 	// Slept is the simulated time that passed this way.
 	Slept time.Duration
 }
